@@ -81,6 +81,7 @@ fn xor_case(rec: &mut Rec, ctx: &Ctx, idx: u64, rng: &mut ChaCha20Rng) {
       if a.aux == b.aux {
         continue;
       }
+      rec.evals += 1;
       rec.ev("pair_examined");
       let n = a.ct.len().min(b.ct.len()).min(a.payload.len()).min(b.payload.len());
       let d = match (0..n).find(|&o| a.payload[o] != b.payload[o]) {
@@ -183,6 +184,7 @@ fn window_case(rec: &mut Rec, _ctx: &Ctx, idx: u64, rng: &mut ChaCha20Rng) {
     };
     let b = &r.bytes;
     for off in 0..b.len().saturating_sub(15) {
+      rec.evals += 1;
       rec.ev("window_as_key");
       hit(rec, &b[off..off + 16], "16-byte window used as key", off);
     }
